@@ -145,6 +145,17 @@ def load_corpus():
     return out
 
 
+def kinds_facts(ctx, kinds_bin, d):
+    """run the kinds harness on a rendered program; `ctx.inst_fix`: the working tree treats instances of generic functions
+    as owners of their range-over-func defers (fixes/C04-2.diff), the harness mirrors that variant of the owner lookup"""
+    env = dict(os.environ)
+    env["VP04_INSTANCE_OWNER"] = "1" if getattr(ctx, "inst_fix", 0) else "0"
+    p = sh([kinds_bin, os.path.join(d, "main.go"), os.path.join(d, "read_llgo.go")], env=env)
+    if p.returncode != 0:
+        raise HarnessBuildError("kinds harness failed on the generated program:\n" + (p.stdout + p.stderr)[-3000:])
+    return dg.parse_facts(p.stdout)
+
+
 class BackendCrash(Exception):
     pass
 
@@ -206,10 +217,7 @@ def _build_batch(ctx, tag, cases, kinds_bin, want_ref=True, opts=("-O0", "-O2"),
     shutil.rmtree(d, ignore_errors=True)
     files = dg.render_program(cases)
     e2e.write_module(d, files, modname="verifdefer")
-    p = sh([kinds_bin, os.path.join(d, "main.go"), os.path.join(d, "read_llgo.go")])
-    if p.returncode != 0:
-        raise HarnessBuildError("kinds harness failed on the generated program:\n" + (p.stdout + p.stderr)[-3000:])
-    facts = dg.parse_facts(p.stdout)
+    facts = kinds_facts(ctx, kinds_bin, d)
     if facts["N"] and not allow_nodom:
         # such functions use the frame pointer before it exists: llgo emits IR in which a definition does not dominate its
         # use; LLVM 14 dies on it at -O2. They are compiled apart (class defer:frame-setup-in-place-does-not-dominate).
@@ -326,6 +334,12 @@ def run(ctx, args):
             w = [ci for ci, c in enumerate(cases) if c["name"].endswith("d-stale-frame")]
             tls_fix = 1 if (w and outs["-O0"][w[0]] == outs["ref"][w[0]]) else 0
             ctx.log("working tree: rethrow block %s" % ("resets the thread defer head (repaired)" if tls_fix else "keeps a stale thread defer head (defect d)"))
+            # same for fixes/C04-2.diff: the witness of the dropped range-over-func defers in a generic instance
+            w = [ci for ci, c in enumerate(cases) if c["name"].endswith("k-generic-rangefunc-defer")]
+            ctx.inst_fix = 1 if (w and outs["-O0"][w[0]] == outs["ref"][w[0]]) else 0
+            ctx.log("working tree: an instance of a generic function %s" % ("owns its range-over-func defers (repaired)" if ctx.inst_fix else "is treated as synthetic: its range-over-func defers are dropped (defects k, l)"))
+            if ctx.inst_fix:
+                facts = kinds_facts(ctx, kinds_bin, d)
         progs = []
         lines = []
         for ci, case in enumerate(cases):
@@ -383,6 +397,11 @@ def run(ctx, args):
             for opt, m in (("-O0", m0), ("-O2", m2)):
                 if opt not in real:
                     continue
+                if opt == "-O2" and not dg.toolchain_safe(case):
+                    # a replayed / hand-written layout with a shape the sandbox's LLVM 14 (-opaque-pointers) is known to
+                    # miscompile or crash on at -O2 (see defergen.toolchain_safe): judged at -O0 only
+                    stats["O2_not_judged_llvm14"] = stats.get("O2_not_judged_llvm14", 0) + 1
+                    continue
                 r = real[opt]
                 flags = m[1] + sp[1]
                 for fl in flags:
@@ -407,6 +426,9 @@ def run(ctx, args):
                         # calls out of order, a neighbour's node popped)
                         if any(fl in flags for fl in ("nodesLeft", "drainOrder", "wrongNode", "unexecAlways")):
                             key = "defer:loop-exit-block-defer-ordered-before-loop-defers"
+                    if key is None and "frameNeverPopped" in flags and "staleFrame" in flags:
+                        # the frame a generic instance left on the thread's chain was hit by a later panic
+                        key = "defer:generic-instance-rangefunc-frame-never-popped"
                     if key is None:
                         for fl, k in CLASS:
                             if fl in flags:
@@ -455,4 +477,5 @@ def run(ctx, args):
                         "model `ub` (node decoded with another statement's layout, longjmp into a dead frame) matches any continuation of the real output"]
     return ctx.finish("proof", {"evaluations": evaluations, "distinct_nontrivial": len(nontrivial),
                                "rule": "one evaluation = one layout run in a fresh process by one compiled binary (llgo -O0, llgo -O2, go reference); non-trivial = layout with >= 2 defer statements or a recover / uncaught panic in its Go trace; distinct by encoded layout",
-                               "input_distribution": stats, "tree_configuration": {"rethrow_block_resets_thread_defer": bool(tls_fix)}})
+                               "input_distribution": stats, "tree_configuration": {"rethrow_block_resets_thread_defer": bool(tls_fix),
+                                                                                   "generic_instance_owns_rangefunc_defers": bool(getattr(ctx, "inst_fix", 0))}})
